@@ -252,6 +252,30 @@ theorem wrapper_loop_eq_model (ms : List M) (labs : List Nat) (xs : List Rat) (h
       | some j => wrapApplyPix ms ⟨j, x⟩ | none => 0) labs xs :=
   wrapCall_eq_pointwise ms labs xs hl
 
+open Darsia.Kern in
+/-- **the wrapper on colour signals** (`HeterogeneousModel(KernelInterpolation(kernel), labels)` on an `(H, W, 3)`
+signal, the use in `MultichromaticTracerAnalysis`): with one interpolation per label — weights `ws j`, supports
+`ss j` — every pixel of the `(H, W)` result is the plain kernel sum of ITS label's interpolation at that pixel's
+colour. (Label-wise `StaticThresholdModel` documents scalar signals only; `(H, W, C)` there is outside the API.) -/
+theorem wrapper_kernel_on_colour_signal {F : Type} [CommSemiring F] (k : Pt → Pt → F) (ws : Nat → List F)
+    (ss : Nat → List Pt) (labs : List Nat) (pixels : List Pt) (hl : labs.length = pixels.length) :
+    wrapCallG (0 : F) (fun j x => kernelLoop k (ws j) (ss j) x) labs pixels
+      = List.zipWith (fun l x => match idxIn (uniqSorted labs) l with
+          | some j => plainSum k (ws j) (ss j) x | none => 0) labs pixels := by
+  rw [wrapCallG_eq_pointwise (0 : F) _ labs pixels hl]
+  congr 1
+  funext l x
+  cases idxIn (uniqSorted labs) l with
+  | none => rfl
+  | some j =>
+    simp only
+    apply kernelLoop_eq_plainSum
+    cases ws j with
+    | nil => exact Or.inr (Or.inl rfl)
+    | cons w t => cases ss j with
+      | nil => exact Or.inr (Or.inr rfl)
+      | cons s t' => exact Or.inl ⟨by simp, by simp⟩
+
 /-! ### kernel interpolation (partial: `exp`, `np.linalg.inv`, float32 are observed, not modelled) -/
 
 /-- `interp_reproduces_partial`: over any field, if the kernel matrix `K i j = k(x_i, x_j)` is invertible
@@ -303,6 +327,13 @@ float32 inputs, numba and plain; `exp` in `GaussianKernel` and fastmath reassoci
 theorem kernel_loop_eq_plain_sum {F : Type} [CommSemiring F] (k : Pt → Pt → F) (ws : List F) (ss : List Pt)
     (sig : Signal) : sig.combine k ws ss = sig.pixels.map (plainSum k ws ss) :=
   combine_eq_plainSum k ws ss sig
+
+open Darsia.Kern in
+/-- the supports a cached kernel matrix was assembled for are pairwise distinct (`np.unique` rows are strictly
+increasing) — after every sequence of ops -/
+theorem kernel_supports_distinct (k0 : Nat) (ops : List KOp) (st : KState) (h : run (init k0) ops = .ok st) :
+    ∀ key, st.cache = some key → key.2.Nodup :=
+  run_distinct ops (by intro key hk; simp [init] at hk) h
 
 /-! ### polynomial approximation space -/
 
